@@ -48,6 +48,11 @@ func (db *Builder) Add(b []byte) error {
 		return errors.New("DawgBuilder has already finished")
 	}
 
+	if b == nil {
+		//A nil lastWord means that no word has been added yet so store the empty word as an empty slice.
+		b = []byte{}
+	}
+
 	if db.lastWord != nil && bytes.Compare(db.lastWord, b) != -1 {
 		return errors.New("byte slices must be added in lexicographical order")
 	}
